@@ -64,7 +64,7 @@ class World:
     PROBES_EXPECTED = [
         "ctor-normalised-as-is", "ctor-rescaled", "ctor-unnormalised-kept", "ctor-reject", "marginal", "marginal-reordered",
         "marginal-of-marginal", "marginal-source-reused", "marginal-multidigit", "mmd", "mmd-multi-sigma", "nll", "js",
-        "distance-self", "distance-via-evaluate", "save-load-ok", "list-save", "torn-file-load", "overwrite", "zero-weight",
+        "distance-self", "distance-via-evaluate", "mmd-numpy-sigma", "save-load-ok", "list-save", "torn-file-load", "overwrite", "zero-weight",
     ]
 
     # ------------------------------------------------------------ generation
@@ -133,7 +133,8 @@ class World:
                 s = {"op": "distance", "args": {
                     "kind": r.choice(["mmd", "mmd", "nll", "js"]), "a": r.randrange(64), "b": r.randrange(64),
                     "self": r.random() < 0.2, "via_eval": r.random() < 0.3,
-                    "sigma": r.choice([1.0, 0.1, 1e-3, 7.5, 1e4, [0.25, 10, 1000], [1.0], r.uniform(0.01, 50)]),
+                    "sigma": r.choice([1.0, 0.1, 1e-3, 7.5, 1e4, [0.25, 10, 1000], [1.0], r.uniform(0.01, 50),
+                                       {"np": [0.5, 2.0, 30.0]}, {"np": [1.0, 1e3]}]),
                     "epsilon": r.choice([None, 1e-9, 1e-6, 1e-3])}}
             elif op == "read":
                 s = {"op": "read", "args": {"d": r.randrange(64)}}
@@ -363,8 +364,14 @@ class World:
         if kind == "mmd" and not bits:
             kind = "nll"
         if kind == "mmd":
-            fn, params = D.compute_mmd, {"sigma": a["sigma"]}
-            if isinstance(a["sigma"], list):
+            sig = a["sigma"]
+            if isinstance(sig, dict):
+                import numpy as np
+
+                sig = np.array(sig["np"], dtype=float)   # bandwidths as a caller-owned float array
+                ctx.probe("mmd-numpy-sigma")
+            fn, params = D.compute_mmd, {"sigma": sig}
+            if not isinstance(a["sigma"], float):
                 ctx.probe("mmd-multi-sigma")
         else:
             fn = D.compute_clipped_negative_log_likelihood if kind == "nll" else D.compute_jensen_shannon_divergence
